@@ -16,7 +16,7 @@ Undecided: that grouping keeps exactly one survivor per key for every mix of kin
 import ast
 from ..core import walk_own, norm, AnalysisError
 from ..report import Ob, Floor
-from ..rules import writer, threshold, twin, direction, globalstate, gens, plumb, count, mergetable
+from ..rules import writer, threshold, twin, direction, globalstate, gens, plumb, count, mergetable, prio
 from ..abseval import Evaluator, Sym, Opaque
 from .. import exceptions
 
@@ -133,6 +133,7 @@ def check(ctx, tier):
                                                       skip_funcs={"shexer.shaper:Shaper.__init__"})[0], ctx, "D-i", default=[])
     obs += ctx.attempt(lambda c, cl: count.class_iteration_agreement(c, cl)[0], ctx, "D-j", default=[])
     obs += ctx.attempt(lambda c, cl: mergetable.invariants(c, cl, which=('one-per-key', 'property'))[0], ctx, "D-k", default=[])
+    obs += ctx.attempt(lambda c, cl: prio.check(c, cl)[0], ctx, "D-l", default=[])
     exceptions.apply(obs)
     floors = [Floor("threshold filter comparisons", len(tf.filters), 3), Floor("candidate construction sites", n_sites, 3),
               Floor("selection/grouping functions", n_sel, 5)]
